@@ -15,6 +15,16 @@ Op lines (`ch=@k` names the temp channel of slot k):
   reset local=F | addch ch=C | getch ch=C | delch ch=C | join ch=C front=F id=N |
   leave ch=C front=F id=N | bcast ch=C route=R msg=M | alloctemp slot=K | freetemp slot=K |
   sadd | sdel id=N | spush ids=N,N route=R data=HEX | syspush ids=.. route=R data=HEX
+large groups (sugar for the obvious sequences of join / leave, observation `ok`):
+  joinrange ch=C front=F lo=A hi=B        joins A, A+1, .., B-1
+  leaverange ch=C front=F lo=A hi=B dir=up|down   leaves A..B-1 ascending / descending
+  leaveids ch=C front=F ids=N,N,..        leaves the ids in list order
+operations issued from inside the sessions handler (`self` = the id being handed out):
+  saddpush ids=N,self,N route=R data=HEX  AddSession; OnSessionAdd calls ClientSessions.PushMsg
+  saddbcast ch=C route=R msg=M            AddSession; OnSessionAdd joins (C, local front, self) and broadcasts on C
+  sdelpush id=N ids=.. route=R data=HEX   RemoveSession; OnSessionRemove calls ClientSessions.PushMsg
+The model of these is the composition "registration first, then the callback's operations" /
+"removal first, then the callback's operations", which is what `AddSession` / `RemoveSession` do.
 -/
 namespace Cell2v.Driver.C16
 open Cell2v.Driver Cell2v.Channel
@@ -67,10 +77,23 @@ def showObs : Obs → String
 inductive Cmd
   | reset (lf : String)
   | op (o : Op)
+  | many (os : List Op)
   | alloc (slot : String)
   | free (slot : String)
   | syspush (o : Op)
+  | saddPush (ids : List (Option Nat)) (route : String) (data : List Nat)
+  | saddBcast (c route msg : String)
+  | sdelPush (id : Nat) (ids : List Nat) (route : String) (data : List Nat)
   | bad
+
+/-- id list in which `self` stands for the id being handed out -/
+def parseSelfIds (s : String) : Option (List (Option Nat)) :=
+  if s.isEmpty then some []
+  else (s.splitOn ",").foldr (fun w acc => match acc with
+    | none => none
+    | some l => if w == "self" then some (none :: l) else (parseU32 w).map fun n => some n :: l) (some [])
+
+def maxRange : Nat := 5000
 
 def parseCmd (line : String) : Cmd :=
   let ws := words line
@@ -86,6 +109,23 @@ def parseCmd (line : String) : Cmd :=
   | some "leave" =>
     match kv ws "ch", kv ws "front", (kv ws "id").bind parseU32 with
     | some c, some f, some x => .op (.leave c f x)
+    | _, _, _ => .bad
+  | some "joinrange" =>
+    match kv ws "ch", kv ws "front", (kv ws "lo").bind parseU32, (kv ws "hi").bind parseU32 with
+    | some c, some f, some lo, some hi =>
+      if hi - lo > maxRange then .bad else .many ((List.range (hi - lo)).map fun i => .join c f (lo + i))
+    | _, _, _, _ => .bad
+  | some "leaverange" =>
+    match kv ws "ch", kv ws "front", (kv ws "lo").bind parseU32, (kv ws "hi").bind parseU32, kv ws "dir" with
+    | some c, some f, some lo, some hi, some dir =>
+      if hi - lo > maxRange then .bad
+      else if dir == "up" then .many ((List.range (hi - lo)).map fun i => .leave c f (lo + i))
+      else if dir == "down" then .many ((List.range (hi - lo)).reverse.map fun i => .leave c f (lo + i))
+      else .bad
+    | _, _, _, _, _ => .bad
+  | some "leaveids" =>
+    match kv ws "ch", kv ws "front", (kv ws "ids").bind parseIds with
+    | some c, some f, some ids => .many (ids.map fun x => .leave c f x)
     | _, _, _ => .bad
   | some "bcast" =>
     match kv ws "ch", kv ws "route", kv ws "msg" with
@@ -103,6 +143,18 @@ def parseCmd (line : String) : Cmd :=
     match (kv ws "ids").bind parseIds, kv ws "route", kvHex ws "data" with
     | some ids, some r, some d => .syspush (.spush ids r d)
     | _, _, _ => .bad
+  | some "saddpush" =>
+    match (kv ws "ids").bind parseSelfIds, kv ws "route", kvHex ws "data" with
+    | some ids, some r, some d => .saddPush ids r d
+    | _, _, _ => .bad
+  | some "saddbcast" =>
+    match kv ws "ch", kv ws "route", kv ws "msg" with
+    | some c, some r, some m => .saddBcast c r m
+    | _, _, _ => .bad
+  | some "sdelpush" =>
+    match (kv ws "id").bind parseU32, (kv ws "ids").bind parseIds, kv ws "route", kvHex ws "data" with
+    | some id, some ids, some r, some d => .sdelPush id ids r d
+    | _, _, _, _ => .bad
   | _ => .bad
 
 structure DSt where
@@ -113,6 +165,7 @@ def stepLine (d : DSt) (line : String) : DSt × String :=
   match parseCmd line with
   | .reset lf => ({ st := init lf, slots := [] }, "ok")
   | .op o => let r := step ser d.st o; ({ d with st := r.1 }, showObs r.2)
+  | .many os => ({ d with st := run ser d.st os }, "ok")
   | .syspush o => let r := step ser d.st o; ({ d with st := r.1 }, showObs r.2 ++ " cb=1")
   | .alloc k =>
     if d.slots.contains k then (d, "bad-op")
@@ -124,6 +177,31 @@ def stepLine (d : DSt) (line : String) : DSt × String :=
       let r := step ser d.st (.delch ("@" ++ k))
       ({ d with st := r.1 }, showObs r.2)
     else (d, "bad-op")
+  | .saddPush ids route data =>
+    -- AddSession registers the connection, then OnSessionAdd runs the push
+    let r1 := step ser d.st .sadd
+    match r1.2 with
+    | .added id _ =>
+      let r2 := step ser r1.1 (.spush (ids.map fun o => o.getD id) route data)
+      ({ d with st := r2.1 }, showObs r1.2 ++ " " ++ showObs r2.2)
+    | _ => (d, "bad-op")
+  | .saddBcast c route msg =>
+    -- AddSession registers the connection, then OnSessionAdd joins the channel and broadcasts
+    let r1 := step ser d.st .sadd
+    match r1.2 with
+    | .added id _ =>
+      let r2 := step ser r1.1 (.join c r1.1.localFront id)
+      let r3 := step ser r2.1 (.bcast c route msg)
+      ({ d with st := r3.1 }, showObs r1.2 ++ " " ++ showObs r2.2 ++ " bcast: " ++ showObs r3.2)
+    | _ => (d, "bad-op")
+  | .sdelPush id ids route data =>
+    -- RemoveSession deletes the connection, then (only if it existed) OnSessionRemove runs the push
+    let r1 := step ser d.st (.sdel id)
+    match r1.2 with
+    | .removed true _ =>
+      let r2 := step ser r1.1 (.spush ids route data)
+      ({ d with st := r2.1 }, showObs r1.2 ++ " " ++ showObs r2.2)
+    | _ => ({ d with st := r1.1 }, showObs r1.2 ++ " dl=")
   | .bad => (d, "bad-op")
 
 /-! ### the property predicate on implementation observations -/
@@ -153,7 +231,18 @@ def Spec.create (s : Spec) (c : String) : Spec :=
 def Spec.delete (s : Spec) (c : String) : Spec :=
   { s with chans := s.chans.filter (·.1 != c), grp := s.grp.filter (·.1.1 != c) }
 
-def hasSub (s sub : String) : Bool := (s.splitOn sub).length > 1
+def Spec.ensure (s : Spec) (c : String) : Spec := if (s.uidOf c).isSome then s else s.create c
+
+/-- bookkeeping of one membership operation (what the property statement says it means) -/
+def Spec.apply (s : Spec) : Op → Spec
+  | .addch c => s.ensure c
+  | .delch c => s.delete c
+  | .join c f x => let s1 := s.ensure c; s1.setGroup c f ((s1.group c f).getD [] ++ [x])
+  | .leave c f x =>
+    match s.group c f with
+    | some l => s.setGroup c f (l.erase x)
+    | none => s
+  | _ => s
 
 /-- parse `push front=F ids=.. route=R msg=M` segments of a broadcast observation -/
 def parsePushSeg (seg : String) : Option Push :=
@@ -171,6 +260,9 @@ def parseDl (s : String) : Option (List (Nat × String × String)) :=
 def expectDl (live ids : List Nat) (route dataHex : String) : List (Nat × String × String) :=
   (ids.filter (fun i => live.contains i)).map fun i => (i, route, dataHex)
 
+def showExpDl (l : List (Nat × String × String)) : String :=
+  "dl=" ++ ",".intercalate (l.map fun d => s!"{d.1}:{d.2.1}:{d.2.2}")
+
 def countOf (l : List Nat) (x : Nat) : Nat := (l.filter (· == x)).length
 
 def classifyIds (got want : List Nat) : String :=
@@ -186,18 +278,57 @@ def checkUid (s : Spec) (c : String) (obs : String) (creates : Bool) : Option St
       if obs == s!"ch={s.created + 1}" then none else some s!"channel-map-law new channel {c} must be a fresh object #{s.created + 1}, got {obs}"
     else if obs == "nil" then none else some s!"channel-map-law missing channel {c} fetched as {obs}"
 
+def brief (l : List Nat) : String :=
+  if l.length ≤ 24 then showIds l else s!"{showIds (l.take 8)},..({l.length} ids)..,{showIds (l.drop (l.length - 4))}"
+
+/-- the property on one broadcast observation, against the monitor's own bookkeeping -/
+def checkBcast (s : Spec) (c route msg obs : String) : Option String :=
+  match s.uidOf c with
+  | none =>
+    if obs == "nil" then none
+    else some s!"deleted-or-unknown-channel-addressed channel {c} does not exist but the broadcast produced: {obs}"
+  | some _ =>
+    if obs == "nil" then some s!"existing-channel-not-found channel {c} exists"
+    else
+    match obs.splitOn " | " with
+    | [left, right] =>
+      let segs := (left.splitOn " ; ").drop 1
+      let rws := words right
+      match segs.mapM parsePushSeg, (kv rws "dl").bind parseDl, kv rws "once" with
+      | some ps, some dl, some once =>
+        let fronts := ps.map (·.front)
+        -- fronts the property wants addressed: those with at least one listed id
+        let want := (s.grp.filter (fun e => e.1.1 == c && !e.2.isEmpty)).map (·.1.2)
+        let listedFor (f : String) : List Nat := (s.group c f).getD []
+        if once != "1" || fronts.eraseDups.length != fronts.length then
+          some s!"front-addressed-twice a front-end is addressed more than once in one broadcast: {obs.take 300}"
+        else match want.find? (fun f => !fronts.contains f) with
+        | some f => some s!"front-not-addressed front {f} has members [{brief (listedFor f)}] in {c} but got no push: {obs.take 300}"
+        | none =>
+        match ps.find? (fun p => listedFor p.front != p.ids) with
+        | some p =>
+          some s!"{classifyIds p.ids (listedFor p.front)} front {p.front}: listed [{brief p.ids}] but members in join order are [{brief (listedFor p.front)}]"
+        | none =>
+        match ps.find? (fun p => p.route != route || p.msg != msg) with
+        | some p => some s!"wrong-route-or-payload front={p.front} route={p.route} msg={p.msg}"
+        | none =>
+          let wantDl := expectDl s.live (listedFor s.lf) route (hexOfBytes (ser msg))
+          if dl == wantDl then none
+          else some s!"local-delivery-mismatch connections of {s.lf} received {dl.length} pushes (ids [{brief (dl.map (·.1))}]) but listed are [{brief (listedFor s.lf)}] and live sessions are [{showIds s.live}]"
+      | _, _, _ => some ("unparseable-observation " ++ obs.take 300)
+    | _ => some ("unparseable-observation " ++ obs.take 300)
+
 def viol (reason op : String) : String := "VIOLATION C16/" ++ reason ++ " | op: " ++ op
 
-/-- resolve `@k` — the monitor uses the same naming as the op stream -/
 def specStep (s : Spec) (line : String) : Spec × String :=
   match line.splitOn "\t" with
   | [op, obs] =>
     if s.dead && !op.startsWith "reset" then (s, "ok")
     else if obs.startsWith "panic" || obs.startsWith "<no-observation" then ({ s with dead := true }, viol ("crash " ++ obs) op)
     else
-    let ws := words op
     let out (s' : Spec) (r : Option String) : Spec × String :=
       (s', match r with | none => "ok" | some why => viol why op)
+    let expectOk (what : String) : Option String := if obs == "ok" then none else some (what ++ " " ++ obs)
     match parseCmd op with
     | .bad => (s, "ok")
     | .reset lf => ({ lf := lf }, "ok")
@@ -205,63 +336,17 @@ def specStep (s : Spec) (line : String) : Spec × String :=
       if s.slots.contains k then (s, "ok")
       else
         let c := "@" ++ k
-        let r := checkUid s c obs true
-        let s1 := if (s.uidOf c).isSome then s else s.create c
-        out { s1 with slots := k :: s1.slots } r
+        let s1 := s.ensure c
+        out { s1 with slots := k :: s1.slots } (checkUid s c obs true)
     | .free k =>
-      if s.slots.contains k then out (s.delete ("@" ++ k)) (if obs == "ok" then none else some ("delete-failed " ++ obs))
-      else (s, "ok")
-    | .op (.addch c) =>
-      let r := checkUid s c obs true
-      out (if (s.uidOf c).isSome then s else s.create c) r
+      if s.slots.contains k then out (s.delete ("@" ++ k)) (expectOk "delete-failed") else (s, "ok")
+    | .many os => out (os.foldl Spec.apply s) (expectOk "membership-op-failed")
+    | .op (.addch c) => out (s.apply (.addch c)) (checkUid s c obs true)
     | .op (.getch c) => out s (checkUid s c obs false)
-    | .op (.delch c) => out (s.delete c) (if obs == "ok" then none else some ("delete-failed " ++ obs))
-    | .op (.join c f x) =>
-      let r := checkUid s c obs true
-      let s1 := if (s.uidOf c).isSome then s else s.create c
-      out (s1.setGroup c f ((s1.group c f).getD [] ++ [x])) r
-    | .op (.leave c f x) =>
-      let s1 := match s.group c f with
-        | some l => s.setGroup c f (l.erase x)
-        | none => s
-      out s1 (if obs == "ok" then none else some ("leave-failed " ++ obs))
-    | .op (.bcast c route msg) =>
-      match s.uidOf c with
-      | none =>
-        out s (if obs == "nil" then none
-               else some s!"deleted-or-unknown-channel-addressed channel {c} does not exist but the broadcast produced: {obs}")
-      | some _ =>
-        if obs == "nil" then out s (some s!"existing-channel-not-found channel {c} exists")
-        else
-        match obs.splitOn " | " with
-        | [left, right] =>
-          let segs := (left.splitOn " ; ").drop 1
-          let rws := words right
-          match segs.mapM parsePushSeg, (kv rws "dl").bind parseDl, kv rws "once" with
-          | some ps, some dl, some once =>
-            let fronts := ps.map (·.front)
-            -- fronts the property wants addressed: those with at least one listed id
-            let want := (s.grp.filter (fun e => e.1.1 == c && !e.2.isEmpty)).map (·.1.2)
-            let listedFor (f : String) : List Nat := (s.group c f).getD []
-            let r : Option String :=
-              if once != "1" || fronts.eraseDups.length != fronts.length then
-                some s!"front-addressed-twice a front-end is addressed more than once in one broadcast: {obs}"
-              else match want.find? (fun f => !fronts.contains f) with
-              | some f => some s!"front-not-addressed front {f} has members [{showIds (listedFor f)}] in {c} but got no push: {obs}"
-              | none =>
-              match ps.find? (fun p => listedFor p.front != p.ids) with
-              | some p =>
-                some s!"{classifyIds p.ids (listedFor p.front)} front {p.front}: listed [{showIds p.ids}] but members in join order are [{showIds (listedFor p.front)}]"
-              | none =>
-              match ps.find? (fun p => p.route != route || p.msg != msg) with
-              | some p => some s!"wrong-route-or-payload {showPush p}"
-              | none =>
-                let wantDl := expectDl s.live (listedFor s.lf) route (hexOfBytes (ser msg))
-                if dl == wantDl then none
-                else some s!"local-delivery-mismatch connections of {s.lf} received [{right}] but listed are [{showIds (listedFor s.lf)}] and live sessions are [{showIds s.live}]"
-            out s r
-          | _, _, _ => out s (some ("unparseable-observation " ++ obs))
-        | _ => out s (some ("unparseable-observation " ++ obs))
+    | .op (.delch c) => out (s.apply (.delch c)) (expectOk "delete-failed")
+    | .op (.join c f x) => out (s.apply (.join c f x)) (checkUid s c obs true)
+    | .op (.leave c f x) => out (s.apply (.leave c f x)) (expectOk "leave-failed")
+    | .op (.bcast c route msg) => out s (checkBcast s c route msg obs)
     | .op .sadd =>
       match (kv (words obs) "id").bind parseU32, (kv (words obs) "live").bind parseIds with
       | some id, some live =>
@@ -275,15 +360,54 @@ def specStep (s : Spec) (line : String) : Spec × String :=
       let wantObs := (if found then "ok" else "missing") ++ s!" live={showIds s1.live}"
       out s1 (if obs == wantObs then none else some s!"session-set-mismatch want [{wantObs}] got [{obs}]")
     | .op (.spush ids route data) =>
-      let w := "dl=" ++ ",".intercalate ((expectDl s.live ids route (hexOfBytes data)).map fun d => s!"{d.1}:{d.2.1}:{d.2.2}")
+      let w := showExpDl (expectDl s.live ids route (hexOfBytes data))
       out s (if obs == w then none else some s!"front-fanout-mismatch want [{w}] got [{obs}] live [{showIds s.live}]")
     | .syspush (.spush ids route data) =>
-      let w := "dl=" ++ ",".intercalate ((expectDl s.live ids route (hexOfBytes data)).map fun d => s!"{d.1}:{d.2.1}:{d.2.2}")
-      let _ := ws
+      let w := showExpDl (expectDl s.live ids route (hexOfBytes data))
       if obs == w ++ " cb=1" then out s none
       else if obs.startsWith (w ++ " cb=") then out s (some s!"pushmsg-callback-count {obs}")
       else out s (some s!"front-fanout-mismatch want [{w} cb=1] got [{obs}] live [{showIds s.live}]")
     | .syspush _ => (s, "ok")
+    | .saddPush ids route data =>
+      -- the connection being added has its id and is listed: it is live for a push issued from OnSessionAdd
+      let ows := words obs
+      match (kv ows "id").bind parseU32, (kv ows "live").bind parseIds with
+      | some id, some live =>
+        let s1 := { s with live := s.live ++ [id] }
+        let w := s!"id={id} live={showIds s1.live} " ++ showExpDl (expectDl s1.live (ids.map fun o => o.getD id) route (hexOfBytes data))
+        let r := if id == 0 || s.live.contains id then some s!"session-id-not-fresh {obs}"
+                 else if live != s1.live then some s!"session-set-mismatch {obs}"
+                 else if obs == w then none
+                 else some s!"session-add-callback-push-mismatch a push issued from OnSessionAdd must reach the listed live connections including the new one #{id}: want [{w}] got [{obs}]"
+        out s1 r
+      | _, _ => out s (some ("unparseable-observation " ++ obs))
+    | .saddBcast c route msg =>
+      match obs.splitOn " bcast: " with
+      | [pre, bobs] =>
+        let ows := words pre
+        match (kv ows "id").bind parseU32, (kv ows "live").bind parseIds, kv ows "ch" with
+        | some id, some live, some chv =>
+          let s1 := { s with live := s.live ++ [id] }
+          let s2 := s1.apply (.join c s.lf id)
+          let r := if id == 0 || s.live.contains id then some s!"session-id-not-fresh {obs.take 200}"
+                   else if live != s1.live then some s!"session-set-mismatch {obs.take 200}"
+                   else match checkUid s1 c ("ch=" ++ chv) true with
+                   | some why => some why
+                   | none => (checkBcast s2 c route msg bobs).map fun why => "in-OnSessionAdd " ++ why
+          -- keep the signature of the underlying broadcast violation first
+          out s2 (r.map fun why => if why.startsWith "in-OnSessionAdd " then (why.drop 16).toString ++ " (broadcast issued from OnSessionAdd of #" ++ toString id ++ ")" else why)
+        | _, _, _ => out s (some ("unparseable-observation " ++ obs.take 300))
+      | _ => out s (some ("unparseable-observation " ++ obs.take 300))
+    | .sdelPush id ids route data =>
+      -- the connection being removed is no longer live for a push issued from OnSessionRemove
+      let found := s.live.contains id
+      let s1 := { s with live := s.live.erase id }
+      let w := (if found then "ok" else "missing") ++ s!" live={showIds s1.live} " ++
+        (if found then showExpDl (expectDl s1.live ids route (hexOfBytes data)) else "dl=")
+      out s1 (if obs == w then none
+              else if obs.startsWith ((if found then "ok" else "missing") ++ s!" live={showIds s1.live} ") then
+                some s!"session-remove-callback-push-mismatch want [{w}] got [{obs}]"
+              else some s!"session-set-mismatch want [{w}] got [{obs}]")
   | _ => (s, "bad-line")
 
 end Cell2v.Driver.C16
